@@ -15,6 +15,27 @@ def alphabet(sessions=(1, 2, 3)):
            "HTTP 7 use-db a ta; use-db a wrong", "HTTP 7 use-db b tb; get", "HTTP 7 use-db a ta; bogus; keys", "HTTP 7 use-db a ta; get $$token; use-db b tb"]
     return al
 
+def transport_scripts(tier):
+    """sessions of every kind opened over REAL tcp sockets, closed in different orders, one-shot HTTP requests in between; the counters and the
+    $connections key are dumped while the sessions are open and after they are gone"""
+    setup = ["T 1", "C 1 auth adm pw", "C 1 create-db t tok", "C 1 create-db u tok2", "C 1 use-db t tok", "C 1 create-user u upw", "C 1 set a 1"]
+    kinds = [lambda s: [f"T {s}", f"C {s} use-db t tok"],
+             lambda s: [f"T {s}", f"C {s} use-db t u upw"],
+             lambda s: [f"T {s}", f"C {s} auth adm pw", f"C {s} set-secoundary peer{s}", f"C {s} use-db t tok"],    # a connection that announced itself as a cluster member
+             lambda s: [f"T {s}", f"C {s} use-db t tok", f"C {s} watch $connections"],
+             lambda s: [f"T {s}", f"C {s} use-db t tok", f"C {s} use-db u tok2"],
+             lambda s: [f"T {s}", f"C {s} use-db t bad", f"C {s} get a"],
+             lambda s: [f"T {s}", f"C {s} use-db t tok", f"C {s} use-db t tok", f"C {s} set a 2"]]
+    S = []
+    for i, ka in enumerate(kinds):
+        for j, kb in enumerate(kinds):
+            if tier == "quick" and (i * len(kinds) + j) % 3: continue
+            for order in ((2, 3), (3, 2)):
+                sc = list(setup) + ka(2) + kb(3) + ["DUMP", "H use-db t tok;get a;get $connections", f"X {order[0]}", "DUMP", "C 1 get $connections", f"X {order[1]}", "DUMP",
+                                                     "H use-db t tok;increment a;bogus;get a", "C 1 get $connections", "DUMP"]
+                S.append(sc)
+    return S
+
 class C17(Spec):
     pid = "C17"
     lean_module = "NunVerif.Props.C17Close"
@@ -36,7 +57,9 @@ class C17(Spec):
              ("rebind-vs-rebind", base + ["C 1 use-db a ta", "C 2 use-db b tb"], (1, "use-db b tb"), (2, "use-db a ta"), tail),
              ("bind-vs-refused-bind", base, (1, "use-db a ta"), (2, "use-db a wrong"), tail)]
         # the counter, the mirror key and what the sessions are bound to; the order of the watcher's notifications is not part of C17
-        return sched.stage("C17", P, tier, seed, parts=("reply-A", "reply-B", "later-replies", "state"))
+        r = sched.stage("C17", P, tier, seed, parts=("reply-A", "reply-B", "later-replies", "state"))
+        from vlib import transport
+        return transport.merge(r, transport.stage("C17", transport_scripts(tier)))
 
     def corpus(self):
         return [("reselect-leaks", SETUP + ["SESS 1", "C 1 use-db a ta", "C 1 use-db a ta", "CLOSE 1"]),
